@@ -4,6 +4,8 @@ use vcore::common::*;
 use vcore::eng_wire::guard;
 use vcore::peer;
 use rustbus::message_builder::{DynamicHeader, MarshalledMessage, MessageBuilder};
+use rustbus::connection::ll_conn::{SendMessageContext, SendMessageState};
+use rustbus::connection::Timeout;
 use std::num::NonZeroU32;
 
 fn opt_cps(o: &Option<String>) -> String {
@@ -105,6 +107,209 @@ fn history(out: &mut Out, rng: &mut Prng, len: usize, check_overflow: bool) {
     }
 }
 
+
+/// serial field of the first frame in `bytes` read by hand (offset 8, byte order from byte 0)
+fn wire_serial(frame: &[u8]) -> u64 {
+    let a = [frame[8], frame[9], frame[10], frame[11]];
+    (if frame[0] == b'l' { u32::from_le_bytes(a) } else { u32::from_be_bytes(a) }) as u64
+}
+
+struct Pending {
+    msg: MarshalledMessage,
+    st: SendMessageState,
+    reported: u64,
+    at_peer: Vec<u8>,
+    partial: bool,
+}
+
+/// Histories that also suspend a send (before anything was written, or after a short write), allocate serials
+/// while it is suspended, and resume it or give it up.
+fn history2(out: &mut Out, rng: &mut Prng, len: usize) {
+    let (mut conn, mut server) = peer::connect_pair(false);
+    let mut ops: Vec<String> = Vec::new();
+    let mut evs: Vec<String> = Vec::new();
+    let mut max_fresh: u64 = 0;
+    let mut bad: Vec<String> = Vec::new();
+    let mut pending: Option<Pending> = None;
+    let mut broken = false;
+    let mut i = 0;
+    while i < len || pending.is_some() {
+        i += 1;
+        let r = rng.below(100);
+        if let Some(mut p) = pending.take() {
+            if r < 50 && i < len + 4 {
+                ops.push("a".into());
+                let s = conn.send.alloc_serial().get() as u64;
+                evs.push(format!("i{}", s));
+                if s == 0 || s <= max_fresh {
+                    bad.push(format!("alloc_serial returned {} after {} (a send reporting serial {} is suspended)", s, max_fresh, p.reported));
+                }
+                max_fresh = s;
+                if p.partial && rng.chance(1, 3) {
+                    p.at_peer.extend(peer::drain(&mut server));
+                }
+                pending = Some(p);
+            } else if r < 88 || p.partial || i >= len {
+                ops.push("r".into());
+                out.hit(if p.partial { "resume_after_short_write" } else { "resume_before_first_byte" });
+                let mut ctx = SendMessageContext::resume(&mut conn.send, &p.msg, p.st);
+                let mut spins = 0;
+                let reported = loop {
+                    match ctx.write(Timeout::Nonblock) {
+                        Ok(s) => break Some(s.get() as u64),
+                        Err((c, _)) => {
+                            ctx = c;
+                            p.at_peer.extend(peer::drain(&mut server));
+                            spins += 1;
+                            if spins > 100000 {
+                                ctx.force_finish();
+                                break None;
+                            }
+                        }
+                    }
+                };
+                p.at_peer.extend(peer::drain(&mut server));
+                let frames = peer::split_frames(&p.at_peer).unwrap_or_default();
+                if reported.is_none() || frames.len() != 1 {
+                    bad.push(format!("resumed send did not put exactly one frame on the wire ({} frames, {} bytes)", frames.len(), p.at_peer.len()));
+                    broken = true;
+                    break;
+                }
+                let on_wire = wire_serial(&frames[0]);
+                evs.push(format!("w{}", on_wire));
+                if on_wire != p.reported {
+                    bad.push(format!("send_message reported serial {} before the suspension, the resumed message was transmitted with {}", p.reported, on_wire));
+                }
+                if reported != Some(on_wire) {
+                    bad.push(format!("resumed write reported serial {:?}, the transmitted header has {}", reported, on_wire));
+                }
+            } else {
+                // give the suspended send up (nothing was written: the connection stays usable)
+                ops.push("x".into());
+                out.hit("abandon");
+                drop(p);
+            }
+            continue;
+        }
+        if r < 25 {
+            ops.push("a".into());
+            let s = conn.send.alloc_serial().get() as u64;
+            evs.push(format!("i{}", s));
+            if s == 0 || s <= max_fresh {
+                bad.push(format!("alloc_serial returned {} after {}", s, max_fresh));
+            }
+            max_fresh = s;
+            continue;
+        }
+        let preset: Option<u32> = if rng.chance(1, 4) {
+            Some(match rng.below(3) {
+                0 => (max_fresh as u32).max(1),
+                1 => 0x01020304,
+                _ => 1 + rng.below(1000) as u32,
+            })
+        } else {
+            None
+        };
+        let suspend = r >= 50;
+        let partial = suspend && r >= 75;
+        let mut msg: MarshalledMessage = MessageBuilder::new().signal("a.b", "M", "/o").build();
+        msg.dynheader.serial = preset.and_then(NonZeroU32::new);
+        if partial {
+            // larger than the socket buffer: a non-blocking write stops inside the message
+            let big = vec![0x5au8; 600_000 + rng.below(1000) as usize];
+            msg.body.push_param(&big[..]).unwrap();
+        } else if rng.chance(1, 2) {
+            msg.body.push_param(rng.next()).unwrap();
+        }
+        if !suspend {
+            let reported = conn.send.send_message(&msg).unwrap().write_all().map_err(|e| e.1).unwrap().get() as u64;
+            let bytes = peer::drain(&mut server);
+            let frames = peer::split_frames(&bytes).unwrap_or_default();
+            if frames.len() != 1 {
+                bad.push(format!("{} frames on the wire for one send", frames.len()));
+                broken = true;
+                break;
+            }
+            let on_wire = wire_serial(&frames[0]);
+            ops.push(match preset { Some(p) => format!("p{}", p), None => "s".into() });
+            evs.push(format!("i{}", reported));
+            evs.push(format!("w{}", on_wire));
+            if on_wire != reported {
+                bad.push(format!("write_all reported serial {} but the transmitted header has {}", reported, on_wire));
+            }
+            match preset {
+                Some(p) => {
+                    if on_wire != p as u64 {
+                        bad.push(format!("preset serial {} sent as {}", p, on_wire));
+                    }
+                }
+                None => {
+                    if on_wire == 0 || on_wire <= max_fresh {
+                        bad.push(format!("send issued serial {} after {}", on_wire, max_fresh));
+                    }
+                    max_fresh = on_wire;
+                }
+            }
+            continue;
+        }
+        // suspended send
+        let ctx = conn.send.send_message(&msg).unwrap();
+        let reported = ctx.serial().get() as u64;
+        let mut at_peer = Vec::new();
+        let (st, really_partial) = if partial {
+            match ctx.write(Timeout::Nonblock) {
+                Ok(_) => {
+                    // the kernel took everything: this is an ordinary send after all
+                    at_peer.extend(peer::drain(&mut server));
+                    let frames = peer::split_frames(&at_peer).unwrap_or_default();
+                    ops.push(match preset { Some(p) => format!("p{}", p), None => "s".into() });
+                    evs.push(format!("i{}", reported));
+                    evs.push(format!("w{}", if frames.len() == 1 { wire_serial(&frames[0]) } else { 0 }));
+                    if preset.is_none() {
+                        max_fresh = reported;
+                    }
+                    continue;
+                }
+                Err((c, _)) => (c.into_progress(), true),
+            }
+        } else {
+            (ctx.into_progress(), false)
+        };
+        ops.push(match preset { Some(p) => format!("B{}", p), None => "b".into() });
+        out.hit(if really_partial { "suspend_after_short_write" } else { "suspend_before_first_byte" });
+        evs.push(format!("i{}", reported));
+        match preset {
+            Some(p) => {
+                if reported != p as u64 {
+                    bad.push(format!("send_message reported {} for preset serial {}", reported, p));
+                }
+            }
+            None => {
+                if reported == 0 || reported <= max_fresh {
+                    bad.push(format!("send_message reported serial {} after {}", reported, max_fresh));
+                }
+                max_fresh = reported;
+            }
+        }
+        if really_partial && rng.chance(1, 2) {
+            at_peer.extend(peer::drain(&mut server));
+        }
+        pending = Some(Pending { msg, st, reported, at_peer, partial: really_partial });
+    }
+    let req = format!("c13.run2 1 {}", ops.join(","));
+    for b in &bad {
+        out.violation(&req, b);
+    }
+    if broken || ops.is_empty() {
+        return;
+    }
+    let next = conn.send.alloc_serial().get();
+    let obs = format!("{} next={}", evs.join(","), next);
+    out.hit("history2");
+    out.hit_n("history2_ops", ops.len() as u64);
+    out.case(&req, &obs, ops.iter().any(|o| o == "r" || o == "x"));
+}
+
 pub fn run(cfg: &Cfg) {
     std::panic::set_hook(Box::new(|_| {}));
     let mut out = Out::new(&cfg.outdir);
@@ -113,6 +318,11 @@ pub fn run(cfg: &Cfg) {
     for i in 0..n {
         let len = if cfg.thorough { rng.range(1, 400) } else { rng.range(1, 50) } as usize;
         history(&mut out, &mut rng, len, cfg.thorough && i == 0);
+    }
+    let n2 = if cfg.thorough { 400 } else { 60 };
+    for _ in 0..n2 {
+        let len = if cfg.thorough { rng.range(2, 120) } else { rng.range(2, 30) } as usize;
+        history2(&mut out, &mut rng, len);
     }
     // reply constructors
     let senders: Vec<Option<String>> = vec![None, Some(":1.5".into()), Some("org.example.Caller".into()), Some(":1.4294967295".into())];
@@ -170,7 +380,7 @@ pub fn run(cfg: &Cfg) {
         }
     }
     out.finish(
-        "random histories of alloc_serial / send_message without preset / with preset (1, u32::MAX, last fresh, random) on a real SendConn, serials decoded from the frames at the peer; thorough: the counter is driven to u32::MAX once to observe the overflow branch; reply constructors x {sender present/absent} x {serial boundary values} decoded at the peer; distinct by request; non-trivial = histories with at least 2 operations, all reply cases",
+        "histories with suspended sends: send_message + serial() + into_progress before the first byte or after a short non-blocking write of a 600 KB message, alloc_serial while suspended, resume + write to completion (frames read at the peer, serial field decoded by hand) or abandonment; random histories of alloc_serial / send_message without preset / with preset (1, u32::MAX, last fresh, random) on a real SendConn, serials decoded from the frames at the peer; thorough: the counter is driven to u32::MAX once to observe the overflow branch; reply constructors x {sender present/absent} x {serial boundary values} decoded at the peer; distinct by request; non-trivial = histories with at least 2 operations, all reply cases",
         false,
     );
 }
